@@ -205,6 +205,51 @@ func genG19(repo string, w *Out) error {
 		!strings.Contains(lw.Src(su.Body), "String()") && !strings.Contains(sl.Src(bs.Body), "String()")
 	w.DefBool("log_short_url_omits_userinfo", shortOK)
 
+	// every log record is built in a fresh builder / writer (nothing of an earlier exchange can resurface)
+	hl, err := Parse(repo, "httplog/httplog.go")
+	if err != nil {
+		return err
+	}
+	fresh := true
+	closures := 0
+	for _, fn := range []struct{ name, fresh1, fresh2, use string }{
+		{"Logger.structuredLogFunc", "var b structuredLogBuilder", "", "b.With"},
+		{"Logger.logFunc", "var w logWriter", "w := logWriter{body: true}", "w."},
+	} {
+		fd, err := hl.Func(fn.name)
+		if err != nil {
+			return err
+		}
+		ast.Inspect(fd.Body, func(n ast.Node) bool {
+			fl, ok := n.(*ast.FuncLit)
+			if !ok {
+				return true
+			}
+			src := hl.Src(fl.Body)
+			if !strings.Contains(src, fn.use) {
+				return false
+			}
+			closures++
+			if !strings.Contains(src, fn.fresh1) && (fn.fresh2 == "" || !strings.Contains(src, fn.fresh2)) {
+				fresh = false
+			}
+			return false
+		})
+	}
+	if closures < 8 {
+		return fmt.Errorf("httplog.go: only %d logging closures found in structuredLogFunc/logFunc", closures)
+	}
+	for _, rel := range []string{"httplog/httplog.go", "httplog/slog.go", "httplog/logwriter.go"} {
+		data, err := os.ReadFile(filepath.Join(repo, rel))
+		if err != nil {
+			return err
+		}
+		if strings.Contains(string(data), "sync.Pool") {
+			fresh = false
+		}
+	}
+	w.DefBool("log_builders_fresh_per_line", fresh)
+
 	// ---------------------------------------------------------------- describe.go and its users
 	df, err := Parse(repo, "utils/cobrautil/describe.go")
 	if err != nil {
